@@ -274,6 +274,8 @@ func (r *RolloutReconciler) handleContinuousRelease(c *RolloutContext) error {
 }
 
 func (r *RolloutReconciler) handleRollbackDirectly(rollout *v1beta1.Rollout, workload *util.Workload, newStatus *v1beta1.RolloutStatus) error {
+	// an abandoned continuous-release reset may have left its cursor behind
+	resetFinalisingStep(newStatus)
 	newStatus.SetCanaryRevision(workload.CanaryRevision)
 	r.Recorder.Eventf(rollout, corev1.EventTypeNormal, "Progressing", "workload has been rollback, then rollout is canceled")
 	klog.Infof("rollout(%s/%s) workload has been rollback directly, then rollout canceled", rollout.Namespace, rollout.Name)
@@ -325,6 +327,11 @@ func (r *RolloutReconciler) handleRolloutPlanChanged(c *RolloutContext) error {
 }
 
 func (r *RolloutReconciler) handleNormalRolling(c *RolloutContext) error {
+	// nothing is being finalised while the release rolls normally. A continuous-release reset
+	// that was abandoned half-way (the user went back to the revision being released) leaves its
+	// cursor in the status; the finalising that follows this release, or a later reset, must not
+	// continue from it, their task lists are ordered differently.
+	resetFinalisingStep(c.NewStatus)
 	// check if canary is done
 	if c.NewStatus.GetSubStatus().CurrentStepState == v1beta1.CanaryStepStateCompleted {
 		klog.Infof("rollout(%s/%s) progressing rolling done", c.Rollout.Namespace, c.Rollout.Name)
